@@ -367,6 +367,55 @@ def delField {T V : Type} (tc : TC (TDm T V) V) (key : String) : Except Err (TC 
   else if tc.nt.keys.contains key then .ok { tc with nt := assocSet key none tc.nt }
   else .error .key
 
+/-! ## Part D — indexing and indexed assignment of the tensorclass itself -/
+
+/-- what `tc[item]` / `tc[item] = value` is given as `item` -/
+inductive ItemKind where
+  | key        -- a `str` or a non-empty tuple of `str`: rejected ("Invalid indexing arguments")
+  | batch      -- anything else: a batch index, handed to `_tensordict`
+  deriving DecidableEq, Repr
+
+/-- mirrors tensorclass.py:_getitem: key-like items are rejected, the batch index goes to `_tensordict[item]`
+(`tdIndex`: whatever the tensordict does with it), the result is re-wrapped with a copy of `_non_tensordict`
+(`_from_tensordict_with_copy`) -/
+def getitemTc {TD V : Type} (fields : List String) (keys : TD → List String) (tdIndex : TD → Except Err TD)
+    (k : ItemKind) (self : TC TD V) : Except Err (TC TD V) :=
+  match k with
+  | .key => .error .value
+  | .batch =>
+    match tdIndex self.td with
+    | .error e => .error e
+    | .ok t => (fromTensordict fields (keys t) self.nt).map (fun nt' => ⟨self.cls, t, nt'⟩)
+
+/-- the value of an indexed assignment, as far as `_setitem` distinguishes -/
+inductive SetItemVal (TD V : Type) where
+  | tc (v : TC TD V)        -- a tensorclass instance
+  | td (t : TD)             -- a TensorDictBase
+  | scalar                  -- a number or a tensor: written to every leaf
+  | other                   -- anything else: ValueError
+
+/-- `set(a) == set(b)` -/
+def sameKeySet (a b : List String) : Bool := a.all (fun x => b.contains x) && b.all (fun x => a.contains x)
+
+/-- mirrors tensorclass.py:_setitem (batch index, not the `True`/`None`-on-empty-batch shortcut):
+a tensorclass value of another class must have the same members; the `None` placeholders of fields the value
+holds as tensordict entries are dropped; the write itself is `_tensordict[item] = value._tensordict`. -/
+def setitemTc {TD V : Type} (keys : TD → List String) (tdSetAt : TD → Option TD → Except Err TD)
+    (k : ItemKind) (self : TC TD V) : SetItemVal TD V → Except Err (TC TD V)
+  | .other => if k = .key then .error .value else .error .value
+  | .scalar =>
+    if k = .key then .error .value
+    else (tdSetAt self.td none).map (fun t => { self with td := t })
+  | .td t =>
+    if k = .key then .error .value
+    else (tdSetAt self.td (some t)).map (fun t' => { self with td := t' })
+  | .tc v =>
+    if k = .key then .error .value
+    else if v.cls ≠ self.cls ∧ !sameKeySet (self.nt.keys ++ keys self.td) (v.nt.keys ++ keys v.td) then .error .value
+    else
+      (tdSetAt self.td (some v.td)).map (fun t' =>
+        { self with td := t', nt := self.nt.filter (fun kv => !(keys v.td).contains kv.1) })
+
 /-- invariant of a tensorclass instance: every declared field lives in exactly one of the two dicts,
 nothing else lives there, and `_non_tensordict` only holds `None` placeholders (regular tensorclass) -/
 structure WF {T V : Type} (fields : List String) (tc : TC (TDm T V) V) : Prop where
